@@ -284,7 +284,7 @@ func init() {
 		val := ex.fresh("uvarint", bv64)
 		n := ex.fresh("uvn", bv64)
 		b0 := ex.byteAt(st, b, bvLit(0, 64))
-		ex.assume("true", and(app("bvsle", n, bvLit(10, 64)), app("bvsge", n, "#xfffffffffffffff5"),
+		ex.assume(st.pc, and(app("bvsle", n, bvLit(10, 64)), app("bvsge", n, "#xfffffffffffffff5"),
 			app("bvsle", n, b.L[2]),
 			implies(eq(b.L[2], bvLit(0, 64)), eq(n, bvLit(0, 64))),
 			// a single byte below 0x80 decodes to itself
@@ -378,7 +378,9 @@ func init() {
 	s["crypto/ed25519.Verify"] = func(ex *Exec, fr *Frame, st *State, c *callCtx) Val {
 		ex.oblige(fr, st, "pre", "ed25519-pubkey-size", eq(c.args[0].L[2], bvLit(32, 64)), c.pos, "ed25519.Verify panics unless len(pub)==32: "+ex.srcLine(c.pos))
 		ex.cryptoEvent(fr, st, "ed25519.Verify", c)
-		return boolV(ex.fresh("sigok", sBool))
+		okv := ex.fresh("sigok", sBool)
+		ex.ghostVars["sig_ok"] = boolVal(okv)
+		return boolV(okv)
 	}
 	s["crypto/ed25519.VerifyWithOptions"] = func(ex *Exec, fr *Frame, st *State, c *callCtx) Val {
 		ex.oblige(fr, st, "pre", "ed25519-pubkey-size", eq(c.args[0].L[2], bvLit(32, 64)), c.pos, "ed25519.VerifyWithOptions panics unless len(pub)==32: "+ex.srcLine(c.pos))
@@ -413,6 +415,7 @@ func init() {
 		ex.oblige(fr, st, "pre", "aead-nonce-size", eq(nonce.L[2], bvLit(12, 64)), c.pos, "AEAD.Open panics unless len(nonce)==12: "+ex.srcLine(c.pos))
 		ex.cryptoEvent(fr, st, "AEAD.Open", c)
 		okv := ex.fresh("aeadok", sBool)
+		ex.ghostVars["aead_ok"] = boolVal(okv)
 		ex.assume("true", implies(okv, app("bvsge", ct.L[2], bvLit(16, 64))))
 		// on success plaintext (len-16) is written at dst; on failure dst memory may be clobbered
 		ex.havocSlice(st, Val{T: dst.T, L: []string{dst.L[0], app("bvadd", dst.L[1], dst.L[2]), ct.L[2], ct.L[2]}})
